@@ -91,6 +91,19 @@ Definition observe (shapes : list (list arg)) (s : list behaviour)
     implementation's, else the model's line. *)
 Definition agree (model impl : string) : string := if String.eqb model impl then "=" else model.
 
+(** … evaluation by evaluation: "=" or "<index of the first differing evaluation>#<the model's line for it>". *)
+Fixpoint first_diff (k : nat) (model impl : list string) : string :=
+  match model, impl with
+  | [], [] => "="
+  | m :: model', i :: impl' =>
+      if String.eqb m i then first_diff (S k) model' impl' else showNat k ++ "#" ++ m
+  | m :: _, [] => showNat k ++ "#" ++ m
+  | [], _ :: _ => showNat k ++ "#"
+  end.
+Definition agree_hist (shapes : list (list arg)) (s : list behaviour)
+           (h : list (bool * N * list (N * N))) (impl : list string) : string :=
+  first_diff 0 (obs_hist shapes s h (init_state cv)) impl.
+
 (** The cache-free yardstick of one evaluation, same format (no backend calls). *)
 Definition observe_ref (shapes : list (list arg)) (d : N) (ol : list (N * N)) : string :=
   show_eval (c_refv shapes d (mk_opts ol)) [] (c_ref_runs shapes d (mk_opts ol)).
